@@ -422,6 +422,18 @@ def ob_notify_stopped(vc):
     _notify_obligations(vc, SD.ServiceDiscover._notify_service_stopped, "stopped", "_notify_service_stopped")
 
 
+def canary_notify_calls_nobody(vc):
+    """must be refuted: claims the fan-out never calls a listener (guards the loop contracts
+    of the notify loops against a cut that never enters the body)"""
+    w = DWorld(vc, track=())
+    service = SCFG.gen_service(vc, "service", with_options=False)
+    st = {"filter": None, "listener": None, "all": None}
+    vc.stash("notify", st)
+    vc.outcome(vc.body(SD.ServiceDiscover._notify_service_offered), w.disc, service, vc.opaque("source", "addr"))
+    if not vc.native:
+        vc.check_eq(len(w.log), 0, "canary")
+
+
 def ob_is_watching_service(vc):
     """is_watching_service(entry) over ARBITRARILY MANY registrations: true iff somebody
     watches all services or some registered filter matches the offer"""
@@ -598,6 +610,7 @@ HARNESSES = ST.STORE_OBLIGATIONS + [
     ob_stop_watch,
     ob_stop_watch_all,
     ob_late_registration_overtaken,
+    canary_notify_calls_nobody,
 ] + SS.MESSAGE_RECEIVED_OBLIGATIONS + SS.DISPATCH_OBLIGATIONS + [SS.ob_check_received_refines]
 
 EXPECT_COVERS = {
